@@ -319,6 +319,7 @@ func concExplore(c *core.Ctx, sig string, cf ccfg, prefix []concOp, progs [][]co
 	}
 	distinct := map[string]bool{}
 	n, exhaustive = sched.Explore(max, func(choices []int) []int {
+		c.InFlight(map[string]interface{}{"cfg": cf.model(), "prefix": prefixModel, "programs": renderProgs(cf, progs), "choices": fmt.Sprint(choices), "note": note})
 		run := runConc(cf, prefix, progs, choices, 300*time.Millisecond)
 		c.Eval()
 		tr := strings.Join(run.events, ";")
